@@ -277,10 +277,10 @@ func (w *c19World) barrier() error {
 	}
 	select {
 	case <-w.rule.sig:
-	case <-time.After(10 * time.Second):
+	case <-time.After(30 * time.Second):
 		return fmt.Errorf("writer goroutine did not reach the barrier record\n%s", kit.Stacks())
 	}
-	if !kit.WaitGoroutines(w.base, 10*time.Second) {
+	if !kit.WaitGoroutines(w.base, 30*time.Second) {
 		return fmt.Errorf("goroutines did not settle: have %d want <= %d\n%s", runtime.NumGoroutine(), w.base, kit.Stacks())
 	}
 	return nil
@@ -382,14 +382,14 @@ func runC19Case(c kit.Case, root string, tr *kit.Tracer, rep *kit.Reporter) (v k
 	if err != nil {
 		return infra(err)
 	}
-	slack := 0
-	if w.cfg.Rule == "daily" {
-		slack = 24
-	}
 	nfiles := len(obs["files"].([]kit.M))
 	obs["ev"], obs["h"] = "init", c.Index
 	obs["cfg"] = kit.M{"rule": w.cfg.Rule, "maxSize": w.cfg.MaxSize, "maxBackups": w.cfg.MaxBackups, "days": w.cfg.Days,
-		"gzip": w.cfg.Gzip, "slack": slack}
+		"gzip": w.cfg.Gzip, "slack": 0}
+	seenTs := map[int]bool{}
+	for _, f := range obs["files"].([]kit.M) {
+		seenTs[f["ts"].(int)] = true
+	}
 	if nfiles != len(w.cfg.Pre) {
 		return infra(fmt.Errorf("%d pre-existing backups created, %d seen", len(w.cfg.Pre), nfiles))
 	}
@@ -425,12 +425,13 @@ func runC19Case(c kit.Case, root string, tr *kit.Tracer, rep *kit.Reporter) (v k
 			if err != nil {
 				return infra(err)
 			}
-			if k := len(obs["files"].([]kit.M)); k != nfiles {
-				if k > nfiles {
+			for _, f := range obs["files"].([]kit.M) {
+				if ts := f["ts"].(int); !seenTs[ts] {
+					// a backup that was not there before: the logger rotated and started a new file
+					seenTs[ts] = true
 					lastStart = time.Now()
 					rep.Count("rotations_seen", 1)
 				}
-				nfiles = k
 			}
 			obs["ev"], obs["id"], obs["size"] = "write", id, size
 			tr.Emit(obs)
@@ -445,7 +446,7 @@ func runC19Case(c kit.Case, root string, tr *kit.Tracer, rep *kit.Reporter) (v k
 			cerr := lg.Close()
 			closed = true
 			w.base--
-			if !kit.WaitGoroutines(w.base, 10*time.Second) {
+			if !kit.WaitGoroutines(w.base, 30*time.Second) {
 				return infra(fmt.Errorf("goroutines did not settle after Close\n%s", kit.Stacks()))
 			}
 			obs, err := w.observe()
